@@ -401,6 +401,129 @@ def _assigns(node, names):
     return False
 
 
+class _Subst(ast.NodeTransformer):
+    def __init__(self, mp):
+        self.mp = mp
+
+    def visit_Name(self, n):
+        if n.id in self.mp:
+            r = self.mp[n.id]
+            return ast.copy_location(ast.Name(id=r, ctx=n.ctx) if isinstance(r, str) else ast.parse(ast.unparse(r), mode="eval").body, n)
+        return n
+
+
+def _returns_to_assign(stmts, targets):
+    """body of a helper whose result is bound to `targets` (None: result dropped): every `return E` becomes `targets = E`
+    and the statements after a conditional return move into the other branch"""
+    def asg(val, at):
+        if targets is None:
+            return [] if val is None else [ast.copy_location(ast.Expr(value=val), at)]
+        v = val if val is not None else ast.Constant(value=None)
+        return [ast.copy_location(ast.Assign(targets=[ast.parse(targets).body[0].value], value=v, lineno=at.lineno), at)]
+    has_ret = lambda xs: any(isinstance(n, ast.Return) for x in xs for n in ast.walk(x))
+    for i, st in enumerate(stmts):
+        if isinstance(st, ast.Return):
+            return stmts[:i] + asg(st.value, st), True
+        if isinstance(st, ast.If) and has_ret(st.body + st.orelse):
+            rest = stmts[i + 1:]
+            b, bdone = _returns_to_assign(st.body, targets)
+            o, odone = _returns_to_assign(st.orelse, targets)
+            r, rdone = _returns_to_assign(rest, targets)
+            body = b + ([] if bdone else r)
+            orelse = o + ([] if odone else r)
+            new = ast.copy_location(ast.If(test=st.test, body=body or [ast.Pass()], orelse=orelse), st)
+            return stmts[:i] + [new], (bdone or rdone) and (odone or rdone)
+        if has_ret([st]):
+            bad(st, "return inside a loop / try / with of a helper of split()")
+    return stmts, False
+
+
+def _split_tuple_assign(st):
+    """a, b = x, y  ->  a = x; b = y   (when no target is read on the right-hand side); x = x disappears"""
+    if isinstance(st, ast.Assign) and len(st.targets) == 1 and isinstance(st.targets[0], ast.Tuple) and isinstance(st.value, ast.Tuple) \
+            and len(st.targets[0].elts) == len(st.value.elts) and all(isinstance(t, ast.Name) for t in st.targets[0].elts):
+        tn = [t.id for t in st.targets[0].elts]
+        ok = True
+        for j, v in enumerate(st.value.elts):
+            for n in ast.walk(v):
+                if isinstance(n, ast.Name) and n.id in tn and not (isinstance(v, ast.Name) and v.id == tn[j]):
+                    ok = False
+        if ok:
+            out = []
+            for t, v in zip(st.targets[0].elts, st.value.elts):
+                if isinstance(v, ast.Name) and v.id == t.id:
+                    continue
+                out.append(ast.copy_location(ast.Assign(targets=[ast.Name(id=t.id, ctx=ast.Store())], value=v, lineno=st.lineno), st))
+            return out
+    if isinstance(st, ast.Assign) and len(st.targets) == 1 and isinstance(st.targets[0], ast.Name) and isinstance(st.value, ast.Name) \
+            and st.value.id == st.targets[0].id:
+        return []
+    return [st]
+
+
+def flatten_helpers(module, fn, keep=(), depth=0):
+    """module-level helpers called at statement level inside `fn` (h(..) / x = h(..) / a, b = h(..) / return h(..)) are replaced
+    by their own bodies: parameters become the argument expressions, `return` becomes the assignment of the call's targets.
+    A refactoring that cuts a function into helpers is undone this way before slicing."""
+    helpers = {n.name: n for n in module.body if isinstance(n, ast.FunctionDef) and n.name != fn.name and n.name not in keep and not n.decorator_list}
+    caller_names = {n.id for n in ast.walk(fn) if isinstance(n, ast.Name)} | {a.arg for a in fn.args.args}
+    counter = [0]
+
+    def inline(call, targets, at):
+        h = helpers[call.func.id]
+        params = [a.arg for a in h.args.args]
+        if h.args.vararg or h.args.kwarg or h.args.kwonlyargs or len(call.args) + len(call.keywords) != len(params) or h.args.defaults:
+            return None
+        amap = dict(zip(params, call.args))
+        for kw in call.keywords:
+            if kw.arg not in params or kw.arg in list(amap)[:len(call.args)]:
+                return None
+            amap[kw.arg] = kw.value
+        if not all(isinstance(a, (ast.Name, ast.Constant, ast.Attribute)) for a in amap.values()):
+            return None
+        # a parameter that the helper re-binds must be passed a plain name (the re-binding is then local to the slice, as the
+        # slicer only follows the tracked names)
+        rebound = {n.id for n in ast.walk(h) if isinstance(n, ast.Name) and isinstance(n.ctx, ast.Store)}
+        mp = {}
+        for p_, a in amap.items():
+            if p_ in rebound and not isinstance(a, ast.Name):
+                return None
+            mp[p_] = a.id if isinstance(a, ast.Name) else a
+        tnames = set() if targets is None else {n.id for n in ast.walk(ast.parse(targets)) if isinstance(n, ast.Name)}
+        counter[0] += 1
+        for loc in rebound - set(params):
+            if loc in caller_names and loc not in tnames:
+                mp[loc] = "%s__h%d" % (loc, counter[0])
+        body = [x for x in h.body if not (isinstance(x, ast.Expr) and isinstance(x.value, ast.Constant))]
+        body = [_Subst(mp).visit(ast.parse(ast.unparse(x)).body[0]) for x in body]
+        body, _ = _returns_to_assign(body, targets)
+        return body
+
+    def walk(stmts, d):
+        out = []
+        for st in stmts:
+            call, targets = None, None
+            if isinstance(st, ast.Expr) and isinstance(st.value, ast.Call):
+                call = st.value
+            elif isinstance(st, ast.Assign) and len(st.targets) == 1 and isinstance(st.value, ast.Call):
+                call, targets = st.value, ast.unparse(st.targets[0])
+            if call is not None and isinstance(call.func, ast.Name) and call.func.id in helpers and d < 3:
+                body = inline(call, targets, st)
+                if body is not None:
+                    for x in body:
+                        ast.fix_missing_locations(x)
+                    out.extend(walk(body, d + 1))
+                    continue
+            for fld in ("body", "orelse", "finalbody"):
+                if getattr(st, fld, None) and isinstance(getattr(st, fld), list) and not isinstance(st, (ast.FunctionDef, ast.ClassDef)):
+                    setattr(st, fld, walk(getattr(st, fld), d))
+            out.extend(_split_tuple_assign(st))
+        return out
+    new = ast.parse(ast.unparse(fn)).body[0]
+    new.body = walk(new.body, 0)
+    return ast.fix_missing_locations(new)
+
+
 def slice_split(core, reader_input):
     """The statements of split() that decide the window counts, in source order (a program slice on TRACKED).
     Kept: assignments to tracked names, `raise` statements, and the `if` statements around them (their tests may only
@@ -408,7 +531,7 @@ def slice_split(core, reader_input):
     strings, tokenizer, generators). The isinstance(input, AudioReader) test selects the branch; the construction of the
     AudioReader (non-reader inputs) is replaced by the block-size test it performs (modelled by hand:
     block = int(analysis_window * sampling_rate), ValueError when 0)."""
-    fn = find_function(core, "split")
+    fn = flatten_helpers(core, find_function(core, "split"), keep=("_duration_to_nb_windows", "_make_audio_region"))
     state = {"saw_reader": False}
 
     def reader_test(test):
@@ -434,7 +557,7 @@ def slice_split(core, reader_input):
             if isinstance(st, ast.Assign) and len(st.targets) == 1 and isinstance(st.targets[0], ast.Name) and st.targets[0].id == "analysis_window" \
                     and in_reader_branch is not None:
                 src = ast.unparse(st.value)
-                if in_reader_branch and src != "source.block_dur":
+                if in_reader_branch and src not in ("source.block_dur", "input.block_dur"):
                     bad(st, "analysis_window of an AudioReader input is not source.block_dur")
                 if not in_reader_branch and "kwargs.get" not in src:
                     bad(st, "analysis_window is not taken from the keyword arguments")
